@@ -301,6 +301,45 @@ fn do_repro_louv(g: &Arc<G>, src: &Source, t: &mut Toks, o: &mut Out) {
     o.obs(73, &[vec![0]], &[]);
 }
 
+/// non-randomised algorithms: closeness and betweenness of freshly rebuilt copies of the graph, in process and
+/// under pools of 1 / 4 / 16 threads, must agree up to floating-point rounding of sums (1e-9 relative)
+fn do_repro_cent(src: &Source, t: &mut Toks, o: &mut Out) {
+    use graphrs::algorithms::centrality::{betweenness, closeness};
+    let weighted = t.i() != 0;
+    let run = |g: &G| -> Option<(Vec<(i64, f64)>, Vec<(i64, f64)>)> {
+        let c = guard(|| closeness::closeness_centrality(g, weighted, true))?.ok()?;
+        let b = guard(|| betweenness::betweenness_centrality(g, weighted, true))?.ok()?;
+        let mut cv: Vec<(i64, f64)> = c.into_iter().collect();
+        let mut bv: Vec<(i64, f64)> = b.into_iter().collect();
+        cv.sort_by(|x, y| x.0.cmp(&y.0));
+        bv.sort_by(|x, y| x.0.cmp(&y.0));
+        Some((cv, bv))
+    };
+    let mut outs = vec![];
+    for _ in 0..3 {
+        let g = rebuild(src);
+        outs.push(run(&g));
+    }
+    for k in POOLS {
+        let g = rebuild(src);
+        outs.push(in_pool(k, move || run(&g)));
+    }
+    let close = |a: &Vec<(i64, f64)>, b: &Vec<(i64, f64)>| {
+        a.len() == b.len()
+            && a.iter().zip(b.iter()).all(|(x, y)| x.0 == y.0 && (x.1 - y.1).abs() <= 1e-9 * x.1.abs().max(y.1.abs()).max(1e-300))
+    };
+    let ok_all = outs.iter().all(|x| x.is_some());
+    let (mut same_c, mut same_b) = (true, true);
+    if let Some(Some(first)) = outs.first() {
+        for x in outs.iter().flatten() {
+            same_c &= close(&first.0, &x.0);
+            same_b &= close(&first.1, &x.1);
+        }
+    }
+    o.obs(84, &[vec![ok_all as i64, same_c as i64, same_b as i64, outs.len() as i64]], &[]);
+    o.obs(73, &[vec![0]], &[]);
+}
+
 type GnpOut = (i64, Vec<i64>, Vec<Vec<i64>>);
 
 fn call_gnp(n: i32, p: f64, directed: bool, seed: Option<u64>) -> GnpOut {
@@ -390,6 +429,7 @@ pub fn run_case(lines: &[Vec<String>], o: &mut Out) {
             ("repro", _) => match (t.s(), &graph) {
                 ("louv", Some(g)) => do_repro_louv(g, source.as_ref().unwrap(), &mut t, o),
                 ("gnp", _) => do_repro_gnp(&mut t, o),
+                ("cent", Some(_)) => do_repro_cent(source.as_ref().unwrap(), &mut t, o),
                 _ => {}
             },
             _ => {}
